@@ -249,7 +249,7 @@ type c09DObs struct {
 	Retry    int  `json:"retry"`
 }
 
-func c09RunTraceD(in c09TraceD) (obs []c09DObs, o puppet.TargetOutcome, m *c09Max, base int) {
+func c09RunTraceD(in c09TraceD) (obs []c09DObs, o puppet.TargetOutcome, m *c09Max) {
 	suite := uint16(0xe013)
 	epIn := c09Ep{Stack: "dtlcp", Target: in.Target, Suite: suite, Ident: "sm2"}
 	ep := c09TargetConfig(epIn)
@@ -269,9 +269,6 @@ func c09RunTraceD(in c09TraceD) (obs []c09DObs, o puppet.TargetOutcome, m *c09Ma
 		} else if in.Target == "client" {
 			p.Absorb(5)
 		}
-		pc.M.mu.Lock()
-		base = pc.lastDepth
-		pc.M.mu.Unlock()
 		var sent [][]byte // sealed records of this trace, in order
 		for _, e := range in.Evs {
 			switch e.K {
@@ -309,10 +306,10 @@ func c09RunTraceD(in c09TraceD) (obs []c09DObs, o puppet.TargetOutcome, m *c09Ma
 			pc.M.mu.Unlock()
 		}
 	})
-	return obs, o, m, base
+	return obs, o, m
 }
 
-func c09TraceDCoq(in c09TraceD, obs []c09DObs, maxDepth, base int) string {
+func c09TraceDCoq(in c09TraceD, obs []c09DObs, maxDepth, maxFrames int) string {
 	w, vk, ci := "WMsg", false, false
 	dwell := false
 	if in.Phase == "p4" {
@@ -338,5 +335,5 @@ func c09TraceDCoq(in c09TraceD, obs []c09DObs, maxDepth, base int) string {
 	for _, o := range obs {
 		os = append(os, fmt.Sprintf("(%s, %d%%nat, %d%%nat, %d%%nat, %d%%nat)", emit.Bool(o.Running), o.Hand, o.Pending, o.PendingB, o.Retry))
 	}
-	return fmt.Sprintf("TraceD %s %s %s %s [%s] [%s] %d %d", w, emit.Bool(vk), emit.Bool(ci), emit.Bool(dwell), strings.Join(evs, "; "), strings.Join(os, "; "), maxDepth, base)
+	return fmt.Sprintf("TraceD %s %s %s %s [%s] [%s] %d %d", w, emit.Bool(vk), emit.Bool(ci), emit.Bool(dwell), strings.Join(evs, "; "), strings.Join(os, "; "), maxDepth, maxFrames)
 }
